@@ -498,11 +498,31 @@ fn process_tags(
     // variables in force where each deferred tag stands in the document
     let mut environments: HashMap<OrderIndex, Vec<Scope>> = HashMap::new();
 
-    while !tags.is_empty() && remain.len() != tags.len() {
+    // What was known (tags completed here, ids registered / positioned anywhere) when
+    // each deferred tag last failed: retrying it before that has changed cannot end
+    // differently, and doing so anyway repeats the work of every nested list.
+    let mut knowledge_at_failure: HashMap<OrderIndex, usize> = HashMap::new();
+    let mut completed = 0usize;
+
+    while !tags.is_empty() {
         #[cfg(feature = "verif")]
         crate::verif::pass_begin(tags.len());
+        let mut attempts = 0usize;
         for (idx, t) in &mut tags.iter_mut() {
             let idx = idx.clone();
+            if knowledge_at_failure.get(&idx) == Some(&(context.knowledge() + completed)) {
+                #[cfg(feature = "verif")]
+                crate::verif::tag_result(
+                    &format!("{:?}", idx),
+                    t.get_element().is_some(),
+                    false,
+                    context.in_specs,
+                    "deferred",
+                );
+                remain.push((idx, t.clone()));
+                continue;
+            }
+            attempts += 1;
             let el = if let Some(el) = t.get_element() {
                 // update early so reuse targets are available even if the element
                 // is not ready (e.g. within a specs block)
@@ -559,6 +579,7 @@ fn process_tags(
                     if !events.is_empty() {
                         idx_output.insert(idx, events);
                     }
+                    completed += 1;
                 } else {
                     if let (Some(el), Err(err)) = (el, gen_result) {
                         if let SvgdxError::MultiError(err_list) = err {
@@ -572,6 +593,7 @@ fn process_tags(
                     environments
                         .entry(idx.clone())
                         .or_insert_with(|| context.environment());
+                    knowledge_at_failure.insert(idx.clone(), context.knowledge() + completed);
                     remain.push((idx, t.clone()));
                 }
             } else if let Ok((_, Some(bbox))) = gen_result {
@@ -581,8 +603,8 @@ fn process_tags(
             }
         }
         #[cfg(feature = "verif")]
-        crate::verif::pass_end(remain.len(), tags.len() != remain.len());
-        if tags.len() == remain.len() {
+        crate::verif::pass_end(remain.len(), attempts > 0 || remain.is_empty());
+        if attempts == 0 && !remain.is_empty() {
             return Err(SvgdxError::MultiError(element_errors));
         }
 
